@@ -180,4 +180,6 @@ def run(model, R):
     R.guard('ORDER', None, '_init', init_rules, model, R)
     R.guard('ORDER', None, '_fromlist', fromlist_rules, model, R)
     R.guard('WHO-MAY-WRITE', None, 'package', who_may_write, model, R)
+    from .common import flag_clobber
+    flag_clobber(R, model.func('lattices.Data._fromlist'), ['unordered'])
     return __doc__.strip()
